@@ -304,6 +304,11 @@ struct Scenario {
     /// this many more waiters are consumed through futures::select! (the
     /// FusedFuture interface), polled (again) only after close() has returned
     fused: u32,
+    /// shutdown requested immediately after start(): no request served and no
+    /// .await between start() and close()/drop, so that the server task may
+    /// not have been polled even once; on a current-thread runtime
+    /// ("current": it certainly has not) or the multi-thread one ("multi")
+    immediate: Option<&'static str>,
 }
 
 #[derive(Clone, Copy, Debug, PartialEq)]
@@ -330,6 +335,7 @@ impl Scenario {
             "via_drop": self.via_drop,
             "close_on": co_s(self.close_on),
             "fused": self.fused,
+            "immediate": self.immediate,
             "conns": self.conns.iter().map(|(c, s)| {
                 let v = match s {
                     Script::IdleFresh => json!({"k": "idle"}),
@@ -383,6 +389,11 @@ impl Scenario {
                 _ => CloseOn::Runtime,
             },
             fused: v.get("fused").and_then(|x| x.as_u64()).unwrap_or(0) as u32,
+            immediate: match v.get("immediate").and_then(|x| x.as_str()) {
+                Some("current") => Some("current"),
+                Some("multi") => Some("multi"),
+                _ => None,
+            },
         })
     }
 }
@@ -933,7 +944,89 @@ struct Outcome {
     notes: Vec<String>,
 }
 
+/// Shutdown requested right after start(), with nothing awaited in between.
+fn run_immediate(sc: &Scenario, kind: &str) -> Outcome {
+    let sh = Arc::new(Shared {
+        log: Mutex::new(vec![]),
+        cv: Condvar::new(),
+        open: AtomicBool::new(true),
+        release: AtomicBool::new(true),
+        release2: AtomicBool::new(true),
+        close_called: AtomicBool::new(false),
+        big: HashMap::new(),
+        orphan: HashMap::new(),
+    });
+    let mut notes = vec![];
+    let runtime = if kind == "current" {
+        tokio::runtime::Builder::new_current_thread().enable_all().build().unwrap()
+    } else {
+        rt()
+    };
+    const T: Duration = Duration::from_secs(15);
+    let (addr, inode, timed_out) = runtime.block_on(async {
+        // ---- nothing is awaited from here ...
+        let mut api = ApiDescription::new();
+        api.register(get_ep).unwrap();
+        api.register(warm_ep).unwrap();
+        let mut config = ConfigDropshot::default();
+        config.bind_address = "127.0.0.1:0".parse().unwrap();
+        config.default_handler_task_mode =
+            if sc.detached { HandlerTaskMode::Detached } else { HandlerTaskMode::CancelOnDisconnect };
+        let mut b = ServerBuilder::new(api, sh.clone(), quiet_log()).config(config);
+        if sc.transport == Transport::Tls {
+            b = b.tls(Some(ConfigTls::AsBytes { certs: CERT.as_bytes().to_vec(), key: KEY.as_bytes().to_vec() }));
+        }
+        let server = b.start().expect("server start");
+        let addr = server.local_addr();
+        let inode = listen_inode(addr.port());
+        let mut ws = vec![];
+        for j in 1..=sc.waiters {
+            let f = server.wait_for_shutdown();
+            let sh2 = sh.clone();
+            ws.push(tokio::spawn(async move {
+                let r = f.await;
+                sh2.push(Ev::Waiter(j, r.is_ok()));
+            }));
+        }
+        sh.push(Ev::CloseCalled);
+        sh.close_called.store(true, Ordering::SeqCst);
+        let mut timed_out = vec![];
+        let fut: std::pin::Pin<Box<dyn std::future::Future<Output = Result<(), String>> + Send>> = if sc.via_drop {
+            let f = server.wait_for_shutdown();
+            drop(server);
+            Box::pin(f)
+        } else {
+            Box::pin(server.close())
+        };
+        // ---- ... to here
+        match tokio::time::timeout(T, fut).await {
+            Ok(r) => sh.push(Ev::CloseReturned(r.is_ok())),
+            Err(_) => timed_out.push("close-not-returned-in-15s".to_string()),
+        }
+        for (i, w) in ws.into_iter().enumerate() {
+            if tokio::time::timeout(Duration::from_secs(5), w).await.is_err() {
+                timed_out.push(format!("waiter-{}-not-released", i + 1));
+            }
+        }
+        (addr, inode, timed_out)
+    });
+    notes.extend(timed_out);
+    if sh.snapshot().iter().any(|e| matches!(e, Ev::CloseReturned(_))) {
+        sh.push(Ev::ConnectAfter(probe(addr, inode)));
+    } else {
+        // shutdown never finished: is the port still served?
+        notes.push(format!("port-after-timeout:{}", probe(addr, inode)));
+    }
+    sh.open.store(false, Ordering::SeqCst);
+    let trace = sh.snapshot();
+    runtime.shutdown_background();
+    Outcome { trace, notes }
+}
+
 fn run_scenario(sc: &Scenario) -> Outcome {
+    if let Some(kind) = sc.immediate {
+        return run_immediate(sc, kind);
+    }
     let mut big = HashMap::new();
     let mut orphan = HashMap::new();
     for (c, s) in &sc.conns {
@@ -1179,6 +1272,11 @@ fn line_for(sc: &Scenario, out: &Outcome, group: &'static str) -> Line {
             CloseOn::Manual => "std-thread+manual-poll-noop-waker",
         }),
         format!("fused-waiters:{}", sc.fused),
+        format!("shutdown-at:{}", match sc.immediate {
+            Some("current") => "right-after-start(current-thread-runtime)",
+            Some(_) => "right-after-start(multi-thread-runtime)",
+            None => "after-setup",
+        }),
         format!("hold:{}", if sc.hold_ms >= 10000 { "12s" } else if sc.hold_ms >= 3000 { "6.5s" } else { "<0.4s" }),
     ];
     let t = &out.trace;
@@ -1283,6 +1381,7 @@ fn fixed(detached: bool, transport: Transport) -> Vec<Scenario> {
             via_drop: false,
             close_on: CloseOn::Runtime,
             fused: 0,
+            immediate: None,
         });
     };
     let stay = |big| Script::InFlight { big, leave: Leave::Stay, nocx: false };
@@ -1333,6 +1432,7 @@ fn fixed(detached: bool, transport: Transport) -> Vec<Scenario> {
             via_drop,
             close_on,
             fused,
+            immediate: None,
         };
         let stay = |big| Script::InFlight { big, leave: Leave::Stay, nocx: false };
         let gone = Script::InFlight { big: false, leave: Leave::BeforeClose, nocx: true };
@@ -1387,6 +1487,7 @@ fn mixed(rng: &mut Rng, detached: bool, k: usize, transport: Transport) -> Scena
         via_drop: rng.chance(1, 6),
         close_on: *rng.pick(&[CloseOn::Runtime, CloseOn::Runtime, CloseOn::Runtime, CloseOn::BlockOn, CloseOn::Manual]),
         fused: if rng.chance(1, 3) { rng.range(1, 2) as u32 } else { 0 },
+        immediate: None,
     }
 }
 
@@ -1413,7 +1514,7 @@ fn crowd(detached: bool, k: usize, leave: usize, idle: bool, transport: Transpor
     if idle {
         conns.push((k as u32 + 1, Script::InFlight { big: false, leave: Leave::Stay, nocx: false }));
     }
-    Scenario { transport, detached, conns, waiters: 2, hold_ms: 300, via_drop, close_on: CloseOn::Runtime, fused: 0 }
+    Scenario { transport, detached, conns, waiters: 2, hold_ms: 300, via_drop, close_on: CloseOn::Runtime, fused: 0, immediate: None }
 }
 
 fn crowds(opts: &Opts) -> Vec<Scenario> {
@@ -1507,6 +1608,7 @@ fn generate(opts: &Opts) -> Vec<(&'static str, Scenario)> {
                         via_drop: hold_ms == 12000,
                         close_on: CloseOn::Runtime,
                         fused: 0,
+                        immediate: None,
                     },
                 ));
             }
@@ -1531,6 +1633,34 @@ fn generate(opts: &Opts) -> Vec<(&'static str, Scenario)> {
         for detached in [false, true] {
             for _ in 0..n {
                 v.push(("mixed", mixed(&mut rng, detached, k, transport)));
+            }
+        }
+    }
+    // shutdown requested right after start()
+    for detached in [false, true] {
+        for (transport, kinds, ws) in [
+            (Transport::H1, &["current", "multi"][..], &[0u32, 2][..]),
+            (Transport::Tls, &["current"][..], &[1u32][..]),
+        ] {
+            for &kind in kinds {
+                for via_drop in [false, true] {
+                    for &waiters in ws {
+                        v.push((
+                            "immediate",
+                            Scenario {
+                                transport,
+                                detached,
+                                conns: vec![],
+                                waiters,
+                                hold_ms: 0,
+                                via_drop,
+                                close_on: CloseOn::Runtime,
+                                fused: 0,
+                                immediate: Some(kind),
+                            },
+                        ));
+                    }
+                }
             }
         }
     }
